@@ -13,7 +13,9 @@ cachedBlockFor 711-723, cachePut 728-733, nextBlockAt 214-264; bgzf/cache.go: bl
   whose decompression failed does not claim to hold data); `peekGuard` = repair C03-2 (`cacheSwap` does not
   recycle a block the cache still `Peek`s); `failReset` = repair C09-2 (`decompressor.failAt`: after a failed
   `readMember` the block is reset with `setOwner` — not used, no header, no data — and labelled with the
-  requested offset).  `Cfg.asIs` is the tree before these repairs, `Cfg.repaired` the current one.
+  requested offset); `lentGuard` = repair C03-5 (a block that `Get` handed out while the cache kept it indexed is
+  remembered in `bg.lent` and never recycled, also when no cache is attached).  `Cfg.asIs` is the tree before
+  these repairs, `Cfg.repaired` the tree with all of them.
 * Not modelled: `bg.Header`, ownership of blocks by several readers sharing one cache
   (`ErrContaminatedCache`), read-ahead workers (`rd > 1`).
 -/
@@ -85,10 +87,11 @@ structure Cfg where
   peekGuard : Bool
   clearOnRebase : Bool
   failReset : Bool
+  lentGuard : Bool
 deriving DecidableEq, Repr
 
-def Cfg.asIs : Cfg := ⟨false, false, false⟩
-def Cfg.repaired : Cfg := ⟨true, true, true⟩
+def Cfg.asIs : Cfg := ⟨false, false, false, false⟩
+def Cfg.repaired : Cfg := ⟨true, true, true, true⟩
 
 /-- a block whose load failed does not keep the data of its previous use -/
 def Cfg.noStale (cfg : Cfg) : Prop := cfg.clearOnRebase = true ∨ cfg.failReset = true
@@ -106,6 +109,8 @@ structure Reader (σ : Type) where
   cache : Option σ
   /-- keys of the victims the implementation's cache evicted, in order (Random only) -/
   hints : List Int
+  /-- `bg.lent`: the last block `Get` returned while the cache still answered `Peek` for its base -/
+  lent : Option Nat := none
 
 variable {σ : Type}
 
@@ -143,17 +148,25 @@ def recycle (cfg : Cfg) (o : CacheOps σ) (r2 : Reader σ) (c2 : σ) (retained :
   if retained then none
   else match back with
     | none => none
-    | some id => if cfg.peekGuard && (o.peek r2.hview c2 (r2.heap id).base).1 then none else some id
+    | some id =>
+      if (cfg.peekGuard && (o.peek r2.hview c2 (r2.heap id).base).1) || (cfg.lentGuard && r2.lent == some id) then none
+      else some id
+
+/-- `bg.lent = blk` when `b` -/
+def markLent (r : Reader σ) (b : Bool) (id : Nat) : Reader σ := if b then { r with lent := some id } else r
 
 /-- `cacheSwap(base)`: `true` = the current block was swapped for a cached one -/
 def cacheSwap (cfg : Cfg) (o : CacheOps σ) (r : Reader σ) (base : Int) : Except Fault (Reader σ × Bool) :=
   match r.cache with
-  | none => .ok (r, false)
+  | none =>
+    -- repair C03-5: a block on loan from a (detached) cache is not recycled
+    if cfg.lentGuard && r.cur.isSome && r.lent == r.cur then .ok ({ r with cur := none }, false) else .ok (r, false)
   | some c =>
     match o.get r.hview c base with
     | (c1, some id) =>
-      -- cachedBlockFor: blk.seek(0)
-      let r1 := r.setB id { r.heap id with pos := 0, offBlock := 0 }
+      -- cachedBlockFor: blk.seek(0); repair C03-5: if the cache still Peeks the base, the block is on loan
+      let r1 := markLent (r.setB id { r.heap id with pos := 0, offBlock := 0 })
+        (cfg.lentGuard && (o.peek r.hview c1 base).1) id
       -- cachePut(bg.current): result discarded
       match cachePut o r1 c1 r1.cur with
       | .error e => .error e
@@ -350,7 +363,7 @@ def readByte (cfg : Cfg) (o : CacheOps σ) (f : File) (r : Reader σ) :
 
 /-- `NewReader`: the first member is decompressed at once -/
 def newReader (o : CacheOps σ) (cfg : Cfg) (f : File) : Except Fault (Reader σ × Err) :=
-  let r0 : Reader σ := ⟨fun _ => {}, 0, none, .none, (0, 0), (0, 0), false, none, []⟩
+  let r0 : Reader σ := ⟨fun _ => {}, 0, none, .none, (0, 0), (0, 0), false, none, [], none⟩
   nextBlockAt cfg o f r0 0
 
 inductive Op (σ : Type)
